@@ -56,7 +56,9 @@ const uint32_t LEVEL_MASK = BLOCK_VALID_MASK;
 // DESIGN section 7, C02: after a failed setState / non-negative compare every observable is unchanged except
 //   - BLOCK_FAILED_POP on the first failing block X of the target branch,
 //   - BLOCK_FAILED_CHILD on every descendant of X (side forks included),
-//   - raised validity levels (to MAYBE or full) on blocks of the branch below X (all of it when nothing failed),
+//   - raised validity levels on blocks of the target branch: to MAYBE or full below X (all of the branch when
+//     nothing failed), to MAYBE only on X and the branch blocks above it (a comparison applies the whole
+//     branch next to the active chain first),
 //   - the tip-candidate set that follows: descendants-or-self of X leave it, parent(X) may enter it.
 std::vector<std::string> checkUnchanged(const vw::Registry& reg, const Snap& b, const Snap& a, const std::string& target) {
   std::vector<std::string> bad;
@@ -87,13 +89,17 @@ std::vector<std::string> checkUnchanged(const vw::Registry& reg, const Snap& b, 
     uint32_t sb = kv.second.first, sa = ia->second.first;
     if (sb == sa) continue;
     bool ok = false;
-    if (kv.first == X) ok = (sa == (sb | BLOCK_FAILED_POP));
-    else if (isDescOfX(kv.first)) ok = (sa == (sb | BLOCK_FAILED_CHILD));
-    else if (onPath.count(kv.first)) {
-      uint32_t lb = sb & LEVEL_MASK, la = sa & LEVEL_MASK;
-      ok = ((sb & ~LEVEL_MASK) == (sa & ~LEVEL_MASK)) && la > lb &&
-           (la == BLOCK_CAN_BE_APPLIED_MAYBE_WITH_OTHER_CHAIN || la == BLOCK_CAN_BE_APPLIED);
-    }
+    uint32_t lb = sb & LEVEL_MASK, la = sa & LEVEL_MASK;
+    uint32_t fb = sb & ~LEVEL_MASK, fa = sa & ~LEVEL_MASK;
+    // blocks of the target branch may have their level raised: to MAYBE or full below X, to MAYBE only from X upwards
+    // (a comparison applies the whole branch next to the active chain before X fails on its own ancestry)
+    bool lvlSame = la == lb;
+    bool lvlMaybe = la > lb && la == BLOCK_CAN_BE_APPLIED_MAYBE_WITH_OTHER_CHAIN;
+    bool lvlFull = la > lb && la == BLOCK_CAN_BE_APPLIED;
+    bool path = onPath.count(kv.first) > 0;
+    if (kv.first == X) ok = (fa == (fb | BLOCK_FAILED_POP)) && (lvlSame || lvlMaybe);
+    else if (isDescOfX(kv.first)) ok = (fa == (fb | BLOCK_FAILED_CHILD)) && (lvlSame || (path && lvlMaybe));
+    else if (path) ok = (fa == fb) && (lvlMaybe || lvlFull);
     if (!ok) bad.push_back("status of " + kv.first + " " + std::to_string(sb) + " -> " + std::to_string(sa) + " (target " + target + ", first failing " + (X.empty() ? "-" : X) + ")");
   }
   // tips
@@ -208,6 +214,7 @@ struct SmSession : public vw::Session {
       for (auto& x : v) r += " " + x;
       return r;
     }
+    if (t[0] == "payouttip") return I.payout(I.tip());
     if (t[0] == "flags" && t.size() > 1) {
       auto* w = I.idx(t[1]);
       if (w == nullptr) return "unknown";
